@@ -127,6 +127,23 @@ pub fn oracle(c: &Case) -> Vec<Violation> {
             with_raw_table(p, &mut |name, t, raw| {
                 check_object(name, t, Some(raw), &mut out);
             });
+            // serialising the table between two operations must not influence what it serialises to later
+            let final_image = |every: bool| {
+                let mut last: Option<Vec<u8>> = None;
+                let n = flat.len();
+                drive_with(p, &flat, &|s, t| every || s == t, &mut |o: &Obs| {
+                    if o.step == n {
+                        last = Some(o.image.to_vec());
+                    }
+                });
+                last
+            };
+            if flat.len() >= 2 && flat.len() <= 64 {
+                let (a, b) = (final_image(true), final_image(false));
+                if a != b {
+                    out.push(Violation::new("C14", p.kind.name(), "history-diff", "the final image depends on whether the table was serialised between operations".into(), format!("ops={}", flat.len())));
+                }
+            }
             let mut seen = std::collections::HashSet::new();
             for op in &p.ops {
                 if out.len() > 3 {
@@ -245,6 +262,43 @@ fn default_objects(out: &mut Vec<Violation>) -> u64 {
         d.add_data(Box::new(gas::GAS::new(gas::AddressSpace::SystemIo, 8, 0, gas::AccessSize::ByteAccess, 0x3f8)));
         check_object("hest::GenericErrorData", &d, None, out);
         n += 2;
+    }
+    // a package builder is both an object and a sink: serialising it between two calls must not
+    // influence what it serialises to later (all call sequences of length <= 4 over four kinds of
+    // call, every subset of positions at which it is serialised in between)
+    {
+        use acpi_tables::AmlSink;
+        let apply = |pb: &mut aml::PackageBuilder, c: u8| match c {
+            0 => pb.add_element(&0x42u8),
+            1 => pb.add_element(&0x1122_3344_5566_7788u64),
+            2 => pb.byte(0x5a),
+            _ => pb.vec(&[1, 2, 3]),
+        };
+        for len in 1..=4usize {
+            for code in 0..4u32.pow(len as u32) {
+                let calls: Vec<u8> = (0..len).map(|i| ((code >> (2 * i)) & 3) as u8).collect();
+                let mut plain = aml::PackageBuilder::new();
+                for c in &calls {
+                    apply(&mut plain, *c);
+                }
+                let want = ser(&plain);
+                for mask in 1..(1u32 << len) {
+                    let mut pb = aml::PackageBuilder::new();
+                    for (i, c) in calls.iter().enumerate() {
+                        apply(&mut pb, *c);
+                        if mask >> i & 1 == 1 {
+                            crate::aml::build::peek(&pb);
+                        }
+                    }
+                    n += 1;
+                    let mut got = Vec::new();
+                    pb.to_aml_bytes(&mut got);
+                    if got != want {
+                        out.push(Violation::new("C14", "aml::PackageBuilder", "history-diff", "output depends on whether the builder was serialised between calls".into(), format!("calls={:?} serialised-after-mask={:#b} got={:02x?} want={:02x?}", calls, mask, got, want)));
+                    }
+                }
+            }
+        }
     }
     // builder chains on a default object
     let r = srat::RintcAffinity::default().proximity_domain(0x0102_0304).enabled();
